@@ -243,7 +243,7 @@ class FileModel:
                 "start_u16": self.lt.byte_to_utf16(lineno, bstart),
                 "end_u16": self.lt.byte_to_utf16(lineno, bend)}
 
-    def _str_usage(self, node, name, kind, owner, exact=True):
+    def _str_usage(self, node, name, kind, owner, exact=True, sub=None):
         """usage denoted by a string literal: span = the string's content"""
         info = self.strtok.by_start.get((node.lineno, node.col_offset))
         simple = True
@@ -258,6 +258,9 @@ class FileModel:
         multiline = node.end_lineno != node.lineno
         sp = self._span(node.lineno, node.col_offset + prefix + quote,
                         node.end_col_offset - quote if not multiline else node.col_offset + prefix + quote + len(name.encode()))
+        if sub is not None and not multiline:
+            b0 = node.col_offset + prefix + quote
+            sp = self._span(node.lineno, b0 + sub[0], b0 + sub[1])
         u = {"name": name, "kind": kind, "owner": owner, **sp,
              "plain_string": simple and prefix == 0 and quote == 1 and not multiline,
              "exact_span": exact, "node_start_b": node.col_offset, "node_end_b": node.end_col_offset,
@@ -283,9 +286,14 @@ class FileModel:
                     continue
                 names = [x.strip() for x in first.value.split(",")]
                 if isinstance(ind, ast.Constant) and ind.value is True:
-                    for nm in names:
-                        # the whole string denotes the names; exact per-name span only if single
-                        self._str_usage(first, nm, "indirect", owner, exact=(len(names) == 1))
+                    pos = 0
+                    for raw_part in first.value.split(","):
+                        nm = raw_part.strip()
+                        lead = len(raw_part) - len(raw_part.lstrip())
+                        # the part of the string that denotes this name (exact only for one-line, escape-free literals)
+                        self._str_usage(first, nm, "indirect", owner, exact=(len(names) == 1),
+                                        sub=(pos + lead, pos + lead + len(nm)) if len(names) > 1 else None)
+                        pos += len(raw_part) + 1
                 elif isinstance(ind, ast.List):
                     for e in ind.elts:
                         if isinstance(e, ast.Constant) and isinstance(e.value, str) and e.value in names:
